@@ -124,12 +124,13 @@ def Scn.topo (sc : Scn) : Topo :=
 inductive Obs where
   | read (s i : Nat)
   | proc (g : Char) (x k s i : Nat) (kind : Char)
-  | write (d s i : Nat) (ok : Bool)
+  | write (d s i : Nat) (ok : Bool) (stamps : Option String)
   | dreply (d : Nat) (acks : List DAck)
   | dreplyErr (d : Nat)
   | dlqw (s i : Nat) (ok : Bool)
   | dlqa (s i : Nat) (ok : Bool)
   | sack (s i : Nat) (r : SRes)
+  | ackAfterTeardown (s i : Nat)
   | other
 deriving Repr
 
@@ -147,7 +148,9 @@ def parseObs (t : String) : Option Obs :=
   | ["P", g, x, k, s, i, kind] => do
     pure (.proc (g.toList.headD 'S') (← x.toNat?) (← k.toNat?) (← s.toNat?) (← i.toNat?) (kind.toList.headD 's'))
   | ["W", d, s, i, r] => do
-    if s = "?" then none else pure (.write (← d.toNat?) (← s.toNat?) (← i.toNat?) (r = "o"))
+    if s = "?" then none else pure (.write (← d.toNat?) (← s.toNat?) (← i.toNat?) (r = "o") none)
+  | ["W", d, s, i, r, st] => do
+    if s = "?" then none else pure (.write (← d.toNat?) (← s.toNat?) (← i.toNat?) (r = "o") (some st))
   | ["A", d, l] => do
     let d ← d.toNat?
     if l = "!" then pure (.dreplyErr d)
@@ -157,6 +160,8 @@ def parseObs (t : String) : Option Obs :=
     if s = "?" then none else pure (.dlqw (← s.toNat?) (← i.toNat?) (r = "o"))
   | ["U", s, i, r] => do
     if s = "?" then none else pure (.dlqa (← s.toNat?) (← i.toNat?) (r = "o"))
+  | ["S", s, i, "t"] => do
+    if s = "?" then none else pure (.ackAfterTeardown (← s.toNat?) (← i.toNat?))
   | ["S", s, i, r] => do
     if s = "?" then none else
     pure (.sack (← s.toNat?) (← i.toNat?) (if r = "o" then .ok else if r = "f" then .eof else .err))
@@ -256,6 +261,13 @@ def advance (τ : Topo) (g : Seg) (k s : Nat) : EM Unit := do
         for d in f.pend do emit τ (.fdeliver d)
         emit τ (.fan m.s m.i)
     | .dst d =>
+      let a := st.p.ack
+      if τ.jobs (.dst d) k && !m.filt && !(f.done.contains (Seg.dst d, k, m.s, m.i)) &&
+          a.ost m.s m.i == .nacked && a.clone m.s m.i d == .open then
+        -- a job no worker ever finished, of a message that is known to have been nacked: this clone
+        -- was nacked too (handed to a worker whose node had stopped: "worker not running")
+        emit τ (.nackB d m.s m.i)
+      else
       if k + 1 < (f.dst d).length then emit τ (.mv (.dst d) k m.s m.i)
       else if m.filt then emit τ (.fpass d m.s m.i)
       else throw s!"record {m.s}.{m.i} is in front at destination {d} and was not written"
@@ -315,7 +327,7 @@ def settleClone (τ : Topo) (d s i : Nat) : Nat → EM Unit
 destination whose acker worker is gone are only drained, they do not count.) -/
 def mentionsClone (dead : Nat → Bool) (rest : List Obs) (d s i : Nat) : Bool :=
   rest.any fun o => match o with
-    | .write d' s' i' _ => d' == d && s' == s && i' == i
+    | .write d' s' i' _ _ => d' == d && s' == s && i' == i
     | .proc 'D' x _ s' i' _ => x == d && s' == s && i' == i
     | .dreply d' acks => !dead d && d' == d && acks.any fun a => a.1 == some (s, i)
     | _ => false
@@ -396,6 +408,13 @@ def reapWorkers (nSrc sc_m : Nat) (τ : Topo) (rest : List Obs) : EM Unit := do
         else break
       | _, _ => break
 
+/-- the stamps of all processors between source `s` and destination `d`, in order. -/
+def expectedStamps (sc : Scn) (s d : Nat) : String :=
+  let l := ((List.range (sc.sp s).length).map fun k => s!"S{s}k{k}") ++
+           ((List.range sc.pp.length).map fun k => s!"P0k{k}") ++
+           ((List.range (sc.dp d).length).map fun k => s!"D{d}k{k}")
+  if l.isEmpty then "-" else "+".intercalate l
+
 def handle (sc : Scn) (τ : Topo) (o : Obs) (rest : List Obs) : EM Unit := do
   match o with
   | .other => pure ()
@@ -428,10 +447,19 @@ def handle (sc : Scn) (τ : Topo) (o : Obs) (rest : List Obs) : EM Unit := do
       pullTo τ seg idx s i 10000
       emit τ (.proc br s i pk)
       if pk ≠ .fail then advance τ seg idx s
-  | .write d s i ok =>
+  | .write d s i ok stamps =>
+    -- what a destination is given went through every processor on its way (each fake processor
+    -- stamps the record it returns): an unprocessed record must never reach a destination
+    match stamps with
+    | some st =>
+      if st ≠ expectedStamps sc s d then
+        throw s!"record {s}.{i} reached destination {d} with processor stamps {st}, expected {expectedStamps sc s d}"
+    | none => pure ()
     let st ← get
     pullTo τ (.dst d) ((st.p.flow.dst d).length - 1) s i 10000
     emit τ (.write d s i ok)
+  | .ackAfterTeardown s i =>
+    throw s!"source {s} was acked for record {i} after its Teardown: the drain did not wait for the records in flight"
   | .dreply d acks =>
     let st ← get
     if st.p.ack.wdead d then emit τ (.dreply d acks) else do
@@ -483,7 +511,13 @@ def handle (sc : Scn) (τ : Topo) (o : Obs) (rest : List Obs) : EM Unit := do
           -- then drained by `teardown`: the acker node has stopped)
           let isOpen := fun d => cloneSt a s i d == .open
           let noAct := fun d => !mentionsClone (fun _ => true) rest d s i     -- no later Write / processor event
+          -- still on its way to the destination and never seen there again: dropped on the way
+          let onWay := fun d => match locate st.p.flow (some d) s i with
+            | .stage (.dst _) _ _ => true
+            | .cur => true
+            | _ => false
           let cand := ((List.range sc.m).find? fun d => isOpen d && a.wdead d && noAct d).orElse
+            fun _ => ((List.range sc.m).find? fun d => isOpen d && onWay d && noAct d).orElse
             fun _ => ((List.range sc.m).find? fun d => isOpen d && !mentionsClone a.wdead rest d s i).orElse
             fun _ => (List.range sc.m).find? fun d => isOpen d && noAct d
           match cand with
